@@ -291,7 +291,7 @@ func (w *proxyWorld) originHandler(rw http.ResponseWriter, req *http.Request) {
 				n, _ := strconv.Atoi(kv[1])
 				e.Res, e.Status = ri, -1
 				e.RespBody = []byte(hostileResponses[n%len(hostileResponses)])
-				w.res.Faults["hostile_origin_response"]++
+				w.res.fault("hostile_origin_response")
 				if hj, ok := rw.(http.Hijacker); ok {
 					if c, _, err := hj.Hijack(); err == nil {
 						c.Write(e.RespBody)
@@ -525,7 +525,7 @@ func (w *proxyWorld) originHandler(rw http.ResponseWriter, req *http.Request) {
 			}
 			e.Aborted = true
 			e.DoneSeq = w.nextSeq()
-			w.res.Faults["origin_abort"]++
+			w.res.fault("origin_abort")
 			w.sim.Yield("harness:origin-abort")
 			panic(http.ErrAbortHandler)
 		}
@@ -768,7 +768,7 @@ func (w *proxyWorld) clientTask(ci int) {
 		if q.Evict {
 			for _, k := range w.px.VerifCacheKeys() {
 				if w.px.VerifCacheDelete(k) == nil {
-					w.res.Faults["entry_evicted_by_actor"]++
+					w.res.fault("entry_evicted_by_actor")
 				}
 			}
 			continue
@@ -826,7 +826,7 @@ func (w *proxyWorld) clientTask(ci int) {
 		ex.Sent = true
 		w.sim.Yield("harness:client-sent")
 		if q.Disconnect == -1 {
-			w.res.Faults["client_disconnect_before_response"]++
+			w.res.fault("client_disconnect_before_response")
 			ex.Disconnected = true
 			cc.raw.Abort()
 			cc = nil
@@ -866,7 +866,7 @@ func (w *proxyWorld) readResponse(cc *clientConn, ex *Exch, method string, q *PR
 		n, rerr := resp.Body.Read(buf)
 		got = append(got, buf[:n]...)
 		if q.Disconnect > 0 && len(got) >= q.Disconnect {
-			w.res.Faults["client_disconnect_mid_body"]++
+			w.res.fault("client_disconnect_mid_body")
 			ex.Disconnected = true
 			ex.Body = got
 			cc.raw.Abort()
@@ -980,7 +980,7 @@ func execProxyPlan(t *testing.T, p *ProxyPlan, ctl Ctl) (*proxyWorld, *Result) {
 	defer func() { http.DefaultTransport = oldTransport }()
 	bubble(t, res, func() {
 		metrics.Global = metrics.NewMetrics()
-		s := zzsim.New(ctl.Seed, p.Pol)
+		s := zzsim.New(ctl.Seed, racePol(p.Pol))
 		if ctl.Replay != nil {
 			s.SetReplay(ctl.Replay, ctl.Guided)
 		}
@@ -1011,7 +1011,7 @@ func execProxyPlan(t *testing.T, p *ProxyPlan, ctl Ctl) (*proxyWorld, *Result) {
 			DialContext: func(ctx context.Context, network, addr string) (net.Conn, error) {
 				host, _, _ := net.SplitHostPort(addr)
 				if strings.HasPrefix(host, "down.") {
-					w.res.Faults["origin_unreachable"]++
+					w.res.fault("origin_unreachable")
 					return nil, &net.OpError{Op: "dial", Net: "sim", Err: syscall.ECONNREFUSED}
 				}
 				w.mu.Lock()
